@@ -21,3 +21,13 @@ Definition site_ok (s : blame_site) : bool :=
   end.
 
 Definition sites_ok (l : list blame_site) : bool := forallb site_ok l.
+
+(* Error reports guarded by a membership test on values seen at earlier loop indexes (pairwise checks): the verdict on peer j
+   depends on what the peers before j sent, so the per-peer fairness theorems (Proofs/BlameLoopProofs.v, shapes A and B) do not
+   apply to them; Proofs/BlameLoopProofs.v dup_unfair_when_deviator_is_earlier shows that they can name an honest peer.
+   These are exactly the recorded known findings; a new one anywhere else breaks the obligation below. *)
+Definition expected_pairwise_sites : list string :=
+  ["ecdsa/keygen/round_2.go:Start:h1H2Map[h1JHex]"; "ecdsa/keygen/round_2.go:Start:h1H2Map[h2JHex]";
+   "ecdsa/resharing/round_4_new_step_2.go:Start:h1H2Map[h1JHex]"; "ecdsa/resharing/round_4_new_step_2.go:Start:h1H2Map[h2JHex]"]%string.
+Definition string_list_eqb (a b : list string) : bool :=
+  Nat.eqb (List.length a) (List.length b) && forallb (fun p => String.eqb (fst p) (snd p)) (combine a b).
